@@ -189,3 +189,16 @@ check('C17',
       TB + 'That the bounds and scaled costs of the extended problem realise the two-stage reading is checked by correspondence, not '
       'proved (index arithmetic of the duplicated future block).',
       'Coq proof (two-stage / epigraph bounds, row structure) + differential correspondence + implementation oracle', 'DESIGN.md 5 C17')
+check('C10',
+      'Theorem C10_portfolio_is_pure (Purity.v): in the state machine of the state the code really mutates - the grid reference of every '
+      'asset and the restricted grid / discount factors cached on the shared grid object - every problem built along EVERY sequence of '
+      'set_timegrid, set-up with grid, set-up without grid and portfolio set-up, from every state, is the one fresh objects give; the '
+      'behaviour before the repair of the tree is refuted by a three-step sequence. The model is tied to the code by operation '
+      'sequences on real shared objects (portfolio / single-asset set-ups with and without grid argument, other horizons, shifted '
+      'starts, other time zone, other prices, split set-up, fixed windows with a re-used dictionary, serialisation in between): '
+      'every problem built is compared field by field with the problem freshly built objects give, and the user\'s parameter '
+      'dictionaries and price arrays are compared with copies taken beforehand.',
+      TB + 'Only the state enumerated in Purity.v is modelled; a new hidden cache in the Python would show as a difference in the '
+      'sequence runs, not in the theorem. After a set-up that raised, only set-ups that are handed their grid are compared. '
+      'set_timegrid on a wrapper (scaled / structured asset) does not reach the wrapped assets and is not compared.',
+      'Coq proof (state machine invariant over all operation sequences) + operation-sequence differential check on the implementation', 'DESIGN.md 5 C10')
